@@ -11,12 +11,14 @@ import (
 	"golang.org/x/text/unicode/norm"
 	"pgregory.net/rapid"
 
+	"verifharness/fc"
 	"verifharness/h"
 	"verifharness/mgen"
 	ref "verifharness/ref/bip39"
 )
 
 func TestMain(m *testing.M) {
+	h.FirstCallsChild(fc.Bip39()) // never returns in a first-call child process
 	if err := ref.SelfCheck(); err != nil {
 		fmt.Println("VERIF-INFRA reference self-check failed:", err)
 		panic(err)
@@ -425,3 +427,6 @@ func FuzzSentence(f *testing.F) {
 func FuzzGenSentence(f *testing.F) {
 	h.FuzzSub(f, h.Sub[sentCase]{Prop: "C03", Name: "sentence-decode", Gen: genSentence, Check: checkSentence})
 }
+
+// which public entry point is called first in a process (and by how many goroutines at once)
+func TestFirstCalls(t *testing.T) { h.FirstCallsSub(t, "C03", fc.Bip39(), 6) }
